@@ -720,7 +720,7 @@ func designSystem(c *core.Ctx, family string) {
 	if !c.Quick() && family != "Cal" {
 		cfg = "HermesRun_design_" + family + "_thorough.cfg"
 	}
-	r := c.TLC(core.TLCOpts{Module: "MC_HermesRun", Cfg: cfg, Kind: "design-system", Workers: 8, Timeout: 30 * time.Minute, Heap: "12g"})
+	r := c.TLC(core.TLCOpts{Module: "MC_HermesRun", Cfg: cfg, Kind: "design-system", Workers: 8, Timeout: 90 * time.Minute, Heap: "12g"})
 	if !r.OK() {
 		c.Machineryf("system specification (%s): exit=%d %s\n%s", cfg, r.Exit, r.Violated, r.Tail(15))
 	}
